@@ -257,6 +257,19 @@ def run(m: Model, r: Report, tier: str) -> None:
                 f"the stored configuration is dumped with {[ast.unparse(c) for c in cs_]}: both copies (META.json and run_meta.config in the database, which `script rerun --id` reads) "
                 "must contain every option; exclude_* drops options left at a default that is computed per process", loc=f_.loc)
     rer = m.require_function("gallia.commands.script.rerun.Rerunner.main")
+    # HexBytes serialises itself (hexlify): a model-wide bytes representation on top of it encodes twice, and the stored text still unhexlifies - to other bytes
+    n_cfgdict = 0
+    for mod_ in m.modules.values():
+        if not mod_.name.startswith("gallia."):
+            continue
+        for n in ast.walk(mod_.tree):
+            if isinstance(n, ast.Call) and ast.unparse(n.func) in ("ConfigDict", "pydantic.ConfigDict"):
+                n_cfgdict += 1
+                bad_keys = [k.arg for k in n.keywords if k.arg in ("ser_json_bytes", "val_json_bytes")]
+                r.check(not bad_keys, "R5", f"{mod_.name}#model-config@{n.lineno}", f"ConfigDict sets {bad_keys}: bytes options (HexBytes) already carry their own hexlify serialiser / "
+                        "unhexlify validator, so the stored value is encoded twice ('aabb' -> '61616262') and a rerun silently uses other bytes", loc=f"{mod_.relpath}:{n.lineno}")
+    if n_cfgdict < 1:
+        raise AnalysisError("no ConfigDict(...) found in gallia (BaseCommandConfig.model_config)")
     r.check("gallia_class.CONFIG_TYPE(**config)" in ast.unparse(rer.node), "R5", f"{rer.qualname}#reinstantiate", "the rerunner must re-instantiate CONFIG_TYPE from the stored mapping", loc=rer.loc)
 
     # ---------------------------------------------------------------- R6
